@@ -255,19 +255,6 @@ def _run_check(prop, tier, plan, base_seed, njobs, repo, scratch, t0):
                 else:
                     nonrepro.append((sig, path))
 
-    # --- evidence
-    wall = time.time() - t0
-    ev = _evidence(prop, tier, base_seed, agg, plan, wall, known_met, known, new_lines, harness_problems, fixed)
-    os.makedirs(EVIDENCE_DIR, exist_ok=True)
-    jdump(ev, os.path.join(EVIDENCE_DIR, f"{prop}.json"))
-
-    # --- report
-    for name, a in sorted(agg.items()):
-        print(f"[dsim] {name}: runs={a['runs']} workers={a['workers']} wall={a['wall_s']:.0f}s warmup={a['warmup_s']:.0f}s "
-              f"nontrivial={a['nontrivial']} distinct={len(a['digests'] | a['case_sigs'])} truncated={a['truncated']}")
-    for sig, n in sorted(known_met.items()):
-        print(f"KNOWN-FINDING: property={prop} {known[sig]['what']} [{sig}] (met {n}x)")
-    rc = 0
     # probes that must not be stuck at zero
     missing = []
     allp = {}
@@ -278,6 +265,20 @@ def _run_check(prop, tier, plan, base_seed, njobs, repo, scratch, t0):
     for p in REQUIRED_PROBES.get(prop, {}).get(tier, []):
         if allp.get(p, 0) == 0:
             missing.append(p)
+    # --- evidence
+    wall = time.time() - t0
+    ev = _evidence(prop, tier, base_seed, agg, plan, wall, known_met, known, new_lines, harness_problems, fixed)
+    os.makedirs(EVIDENCE_DIR, exist_ok=True)
+    ev["coverage"]["required_probes_at_zero"] = missing
+    jdump(ev, os.path.join(EVIDENCE_DIR, f"{prop}.json"))
+
+    # --- report
+    for name, a in sorted(agg.items()):
+        print(f"[dsim] {name}: runs={a['runs']} workers={a['workers']} wall={a['wall_s']:.0f}s warmup={a['warmup_s']:.0f}s "
+              f"nontrivial={a['nontrivial']} distinct={len(a['digests'] | a['case_sigs'])} truncated={a['truncated']}")
+    for sig, n in sorted(known_met.items()):
+        print(f"KNOWN-FINDING: property={prop} {known[sig]['what']} [{sig}] (met {n}x)")
+    rc = 0
     truncated_any = any(a["truncated"] for a in agg.values())
     if missing and not new_lines:
         if truncated_any:
